@@ -3203,6 +3203,20 @@ EbErrorType svt_svt_enc_init_parameter(
     // Debug info
     config_ptr->recon_enabled = 0;
 
+    // Members with no other default: never leave them to whatever the caller's memory held
+    config_ptr->render_width = 0;
+    config_ptr->render_height = 0;
+    config_ptr->is_16bit_pipeline = EB_FALSE;
+    config_ptr->rc_twopass_stats_in.buf = NULL;
+    config_ptr->rc_twopass_stats_in.sz = 0;
+    config_ptr->rc_firstpass_stats_out = EB_FALSE;
+    config_ptr->enable_qp_scaling_flag = EB_FALSE;
+    config_ptr->enable_denoise_flag = EB_FALSE;
+    config_ptr->in_loop_me_flag = EB_FALSE;
+    config_ptr->vbv_bufsize = 0;
+    config_ptr->manual_pred_struct_entry_num = 0;
+    memset(config_ptr->pred_struct, 0, sizeof(config_ptr->pred_struct));
+
     // Alt-Ref default values
     config_ptr->tf_level = DEFAULT;
     config_ptr->altref_nframes = ALTREF_MAX_NFRAMES;
